@@ -375,6 +375,50 @@ fn generated_wide(r: &mut Report) {
     *r = std::mem::take(r).merge(rep);
 }
 
+/// Databases and observations whose index-key fields are NEAR each other (option layouts that differ only in the eol
+/// padding count, in one unknown option number, in a trailing nop, in order; HTTP versions next to each other): if the
+/// distance function ever accepts a near miss in a key field, the indexed lookup must still find what the scan finds.
+fn generated_near_keys(r: &mut Report) {
+    use TcpOption::*;
+    let layouts: Vec<Vec<TcpOption>> = vec![vec![Mss], vec![Mss, Nop], vec![Mss, Eol(0)], vec![Mss, Eol(1)], vec![Mss, Eol(2)], vec![Mss, Unknown(9)], vec![Mss, Unknown(10)], vec![Nop, Mss], vec![Mss, Nop, Nop], vec![]];
+    let mut ta = vec![];
+    for ver in [IpVersion::V4, IpVersion::Any] {
+        for pc in [PayloadSize::Zero, PayloadSize::Any] {
+            for ol in &layouts {
+                for quirks in [vec![Quirk::Df], vec![]] {
+                    ta.push(tcp::Signature { version: ver, ittl: Ttl::Value(64), olen: 0, mss: None, wsize: WindowSize::Any, wscale: None, olayout: ol.clone(), quirks, pclass: pc });
+                }
+            }
+        }
+    }
+    let mut to = vec![];
+    for ver in [IpVersion::V4, IpVersion::V6] {
+        for pc in [PayloadSize::Zero, PayloadSize::NonZero] {
+            for ol in &layouts {
+                for quirks in [vec![Quirk::Df], vec![]] {
+                    to.push(TcpObservation { version: ver, ittl: Ttl::Distance(57, 7), olen: 0, mss: Some(1460), wsize: WindowSize::Value(8192), wscale: Some(7), olayout: ol.clone(), quirks, pclass: pc });
+                }
+            }
+        }
+    }
+    let total = ta.len() * ta.len();
+    let rep = par_slices(total, 256, |rg| {
+        let mut r = Report::new();
+        for i in rg {
+            let idx = [i % ta.len(), i / ta.len()];
+            for sp in [vec![2usize], vec![1, 1]] {
+                let coll: FingerprintCollection<TcpObservation, tcp::Signature, _> = FingerprintCollection::new(build_entries(&ta, &idx, &sp));
+                r.states += 1;
+                for o in &to {
+                    check_lookup(&mut r, &coll, o, "generated-tcp", &|| json!({"signatures": idx.iter().map(|&i| ta[i].to_string()).collect::<Vec<_>>(), "labels": sp, "family": "near-keys"}));
+                }
+            }
+        }
+        r
+    });
+    *r = std::mem::take(r).merge(rep);
+}
+
 fn generated(r: &mut Report, max_tcp: usize, max_http: usize) {
     let ta = tcp_sig_alphabet();
     let to = tcp_obs_alphabet();
@@ -436,6 +480,7 @@ pub fn run(thorough: bool) -> Outcome {
     let max_sigs = 3;
     generated(&mut r, max_sigs, 3);
     generated_wide(&mut r);
+    generated_near_keys(&mut r);
     Outcome {
         report: r,
         rule: "lookups compared with a full scan: bundled database x observations derived from every bundled signature with each field perturbed (TCP: both tables; HTTP: 4 versions x header-list variants x software strings); every generated database of <= N signatures (72 TCP / 18 HTTP signature alphabet, every split into labels) x every observation of the concrete alphabets (48 TCP / 48 HTTP); distinct = distinct (table, scan result) outcomes".into(),
